@@ -13,6 +13,7 @@ class YamlFormat(SingleEvaluator):
     def __init__(self,
             broker=None,
             missing=False,
+            render_content=False,
             show_rules=None,
             stream=sys.stdout):
         super(YamlFormat, self).__init__(broker, stream=stream)
